@@ -2,9 +2,12 @@ import Holpy.Common.Sexp
 import Holpy.C02.Model
 import Holpy.C02.Toy
 import Holpy.C02.Heap
+import Holpy.C02.Unfold
 /-
 Line protocol for the C02 model (one s-expression in, one out):
   (check NOGAPS COMPUTEONLY LEVEL FUEL THMS PROOF) -> (ok TH TREE GAPS TRACE) | (err E)
+  (hcheck NOGAPS COMPUTEONLY LEVEL FUEL THMS HITEMS HPROOFS ROOT) -> (ok TH WALKED GAPS TRACE OBJS U) | (err E U),
+     U = T|F: the tree model on the unfolding (Unfold.lean) has the same outcome; S: unfolding too large, skipped
   (extend FUEL THMS EXTS)                          -> (THMS AXIOMS E|N)
   (find PROOF ID)                                  -> N | (ID RULE TH)
   (dep A B) (incr_after A B n) (incr A n) (decr A B) (last A)  -> generated ItemID functions; E = IndexError
@@ -97,6 +100,18 @@ def boolOpt : Option Bool → String
 def idOpt : Option (List Int) → String
   | none => "E" | some l => toString (idTo l)
 
+/-- What is left of budget `b` after visiting the unfolding of object `i`, `n` levels deep (0 = spent):
+the unfolding of a graph with shared / cyclic blocks can be exponentially larger than the graph. -/
+def unfoldCost (st : Store) : Nat → Nat → Nat → Nat
+  | n, i, b =>
+    if b = 0 then 0 else
+    match n with
+    | 0 => b - 1
+    | n + 1 =>
+      match (st.items[i]?).bind (fun h => h.sub.bind (st.proofs[·]?)) with
+      | none => b - 1
+      | some l => l.foldl (fun b j => unfoldCost st n j b) (b - 1)
+
 def handle (line : String) : String :=
   match Sexp.parse line with
   | some (.list [.atom "check", ng, co, lvl, fuel, thms, prf]) =>
@@ -124,13 +139,20 @@ def handle (line : String) : String :=
     | some ng, some co, some lvl, some fuel, some thms, some his, some hps, some root =>
       match his.mapM hitemOf, hps.mapM natsOf with
       | some items, some proofs =>
-        match hCheckProof (Toy.rules thms) ⟨ng, co, lvl⟩ fuel ⟨items, proofs⟩ root with
-        | .error e => toString (Sexp.list [.atom "err", .atom (errTo e)])
+        -- last field: the tree model on the unfolding of this graph (Unfold.lean) fails / accepts
+        -- together with the heap walk, with the same theorem, gaps and trace
+        let hr := hCheckProof (Toy.rules thms) ⟨ng, co, lvl⟩ fuel ⟨items, proofs⟩ root
+        let st : Store := ⟨items, proofs⟩
+        let small := ((proofs[root]?).getD []).foldl (fun b j => unfoldCost st fuel j b) 3000 != 0
+        let same : Sexp := .atom (if !small then "S"      -- unfolding too large to build: skipped
+          else if sameOutcome hr (checkUnfolded (Toy.rules thms) ⟨ng, co, lvl⟩ fuel st root) then "T" else "F")
+        match hr with
+        | .error e => toString (Sexp.list [.atom "err", .atom (errTo e), same])
         | .ok r => toString (Sexp.list [.atom "ok", optSeqTo r.th,
             .list (r.walked.map fun w => .list [posTo w.1, optSeqTo ((r.st.items[w.2]?).bind (·.th))]),
             .list (r.gaps.map seqTo),
             .list (r.trace.map fun e => .list [posTo e.pos, ruleTo e.rule, optSeqTo e.computed, seqTo e.th]),
-            .list (r.walked.map fun w => .list [posTo w.1, Sexp.ofNat w.2])])
+            .list (r.walked.map fun w => .list [posTo w.1, Sexp.ofNat w.2]), same])
       | _, _ => "bad-op"
     | _, _, _, _, _, _, _, _ => "bad-op"
   | some (.list [.atom "extend", fuel, thms, exts]) =>
